@@ -199,7 +199,7 @@ def run(tier, seed):
     for hr, (exp, learned) in zip(runs, expect):
         for what, detail in hr.problems:
             res.violation(what, {"base": hr.base, "requests": hr.requests, "detail": detail})
-        rqs = [r for r in hr.requests if r["kind"] != "malformed"]
+        rqs = [r for r in hr.requests if r["kind"] not in ("malformed", "wait_save")]
         # the library pass and the server must be talking about the same candidate
         nxt = {i: rqs[i + 1] for i in range(len(rqs) - 1)}
         in_step = all(obs is not None and ((len(obs["texts"]) > rq["expect_text_at"][0] and obs["texts"][rq["expect_text_at"][0]] == rq["expect_text_at"][1])
